@@ -192,6 +192,8 @@ class Cap(object):
         if not self.record:
             return
         key = (self.cur_fn.name, kind, node["i"])
+        if DEBUG_LOOPS and node.get("l") == int(os.environ.get("LA_DEBUG_LINE", "0")):
+            print("   FAIL %s %s und=%s cons=%r path=%s" % (kind, detail[:60], undecided, st.cons[-12:], st.path[-8:]))
         o = Obligation(kind, node, self.cur_fn, False, detail, undecided=undecided, witness=None if undecided else model(st.cons))
         prev = self.seen_obl.get(key)
         if prev is None:
@@ -1030,6 +1032,11 @@ class Cap(object):
             ln = fresh("sl")
             st.cons.append(Lin.sym(ln))
             st.cons.append(r.nul - v[2] - Lin.sym(ln))
+            # the first terminator at or after v is ln bytes on: that is a known NUL position too, and the string length
+            # when v is the start of the buffer
+            r.nul = v[2] + Lin.sym(ln)
+            if v[2].is_const() and v[2].c == 0:
+                r.slen = Lin.sym(ln)
             return Lin.sym(ln)
         if r.cap is not None and r.kind not in ("external",):
             # no terminator known inside the buffer.  A heap block or local array that nothing has written yet on this path
@@ -1123,6 +1130,8 @@ class Cap(object):
                             nr.nul = old.nul
                         if old.slen is not None and sz is not None and entails(st.cons, sz - old.slen - 1):
                             nr.slen = old.slen
+                            if nr.nul is None:
+                                nr.nul = old.slen        # the string's own terminator is inside the new block
                     old.freed = True
                     return [(st, nv)]
             if p[0] == "n":
@@ -1317,6 +1326,7 @@ class Cap(object):
                         st.cons.append(iv(1) - 1 - Lin.sym(ln))
                         r.nul = A[0][2] + Lin.sym(ln)
                         r.slen = Lin.sym(ln) if (A[0][2].is_const() and A[0][2].c == 0) else None
+                        r.wver += 1
                 s2.path.append("fgets()==NULL")
                 return [(st, A[0]), (s2, NULLV)]
             return [(st, UNK)]
@@ -1990,11 +2000,92 @@ class Cap(object):
                         if d_.get("tp"):
                             self_rel[d_["d"]] = False
 
+        # pointers the loop re-points (p = buf + used; obj->s = realloc(obj->s, ..)) that all designate one live heap block on
+        # entry: in the summary they designate one common live heap block again (a fresh region whose capacity, string length
+        # and terminator are loop-carried symbols), provided every way round the loop re-establishes that shape
+        def find_groups(base, disabled):
+            cand = {}
+            for d in locs:
+                v = base.env.get(d)
+                if v is not None and v[0] == "p" and not self_rel.get(d, True):
+                    cand.setdefault(v[1], []).append(d)
+            for key in base.heap:
+                if isinstance(key, tuple) and len(key) == 2 and key[1] in fields and not isinstance(key[0], tuple) and \
+                        key[0] not in ("byte", "ctype", "global", "addrof", "cell"):
+                    v = base.heap[key]
+                    if v[0] == "p":
+                        cand.setdefault(v[1], []).append(key)
+            out_ = {}
+            for rid, keys_ in cand.items():
+                r0 = base.regions.get(rid)
+                if rid in disabled or r0 is None or r0.kind != "heap" or r0.freed or r0.cap is None:
+                    continue
+                if not any(isinstance(k_, tuple) for k_ in keys_):
+                    continue        # only locals: the block itself is not replaced through an owner
+                others = [k_ for k_, v_ in list(base.env.items()) + list(base.heap.items())
+                          if isinstance(v_, tuple) and v_ and v_[0] == "p" and len(v_) > 1 and v_[1] == rid and k_ not in keys_]
+                if others:
+                    continue
+                out_[rid] = keys_
+            return out_
+
+        def group_region(e, keys_):
+            rid_ = None
+            for k_ in keys_:
+                v_ = e.env.get(k_) if not isinstance(k_, tuple) else e.heap.get(k_)
+                if v_ is None or v_[0] != "p":
+                    return None
+                if rid_ is None:
+                    rid_ = v_[1]
+                elif rid_ != v_[1]:
+                    return None
+            r_ = e.regions.get(rid_)
+            if r_ is None or r_.freed or r_.kind != "heap":
+                return None
+            return r_
+
         # havoc
-        def havoc(base):
+        nullkeys = set()
+        disabled_now = set()
+
+        def havoc(base, groups=()):
             h = base.copy()
             sub = {}
+            gkeys = set()
+            nullkeys.clear()
+            for rid0, keys_ in (groups or {}).items():
+                r0 = base.regions[rid0]
+                rc = fresh("rc")
+                nr = h.new_region("heap", Lin.sym(rc), None, r0.name, r0.site)
+                h.regions[nr].wver = max(1, r0.wver)
+                h.imprecise.add(rc)
+                h.cons.append(Lin.sym(rc))
+                sub[("gcap", rid0)] = ("i", rc, r0.cap)
+                if r0.slen is not None:
+                    x = fresh("rs")
+                    h.imprecise.add(x)
+                    h.cons.append(Lin.sym(x))
+                    h.regions[nr].slen = Lin.sym(x)
+                    sub[("gslen", rid0)] = ("i", x, r0.slen)
+                if r0.nul is not None:
+                    x = fresh("rn")
+                    h.imprecise.add(x)
+                    h.cons.append(Lin.sym(x))
+                    h.regions[nr].nul = Lin.sym(x)
+                    sub[("gnul", rid0)] = ("i", x, r0.nul)
+                for k_ in keys_:
+                    v = base.env.get(k_) if not isinstance(k_, tuple) else base.heap.get(k_)
+                    x = fresh("lo")
+                    h.imprecise.add(x)
+                    if isinstance(k_, tuple):
+                        h.heap[k_] = P(nr, Lin.sym(x))
+                    else:
+                        h.env[k_] = P(nr, Lin.sym(x))
+                    sub[k_] = ("g", x, v[2], rid0)
+                    gkeys.add(k_)
             for d in locs:
+                if d in gkeys:
+                    continue
                 v = base.env.get(d)
                 if v is None:
                     continue
@@ -2011,12 +2102,19 @@ class Cap(object):
                 elif v[0] == "p":
                     h.env[d] = UNK        # re-pointed inside the loop (realloc, new buffer): nothing is known
                 elif v[0] == "n":
-                    h.env[d] = UNK
+                    # a pointer that is NULL on entry and NULL again after every way round (a search result that ends the
+                    # loop when it is found) stays NULL in the summary; checked like the other shapes, else unknown
+                    if ("null", d) in disabled_now:
+                        h.env[d] = UNK
+                    else:
+                        nullkeys.add(d)
                 elif v[0] == "uninit":
                     h.env[d] = UNK
                 else:
                     h.env[d] = v
             for key in list(base.heap):
+                if key in gkeys:
+                    continue
                 if isinstance(key, tuple) and len(key) == 2 and key[1] in fields and not isinstance(key[0], tuple) and key[0] not in ("byte", "ctype", "global", "addrof"):
                     v = base.heap[key]
                     if v[0] == "i":
@@ -2053,205 +2151,242 @@ class Cap(object):
         finally:
             self.record = rs_
             self.peeling = was_peeling
-        h, sub = havoc(pre)
-        for rid in sorted(written):
-            r0 = pre.regions.get(rid)
-            rh = h.regions.get(rid)
-            if r0 is None or rh is None:
-                continue
-            same = r0.slen is not None and r0.nul is not None and r0.slen == r0.nul
-            if r0.slen is not None:
-                x = fresh("rs")
-                h.imprecise.add(x)
-                h.cons.append(Lin.sym(x))
-                rh.slen = Lin.sym(x)
-                sub[("rslen", rid)] = ("i", x, r0.slen)
-                if same:
+        disabled_groups = set()
+        while True:
+            groups = find_groups(pre, disabled_groups)
+            disabled_now.clear()
+            disabled_now.update(disabled_groups)
+            h, sub = havoc(pre, groups)
+            shape_broken = set()
+            for rid in sorted(written):
+                r0 = pre.regions.get(rid)
+                rh = h.regions.get(rid)
+                if r0 is None or rh is None:
+                    continue
+                same = r0.slen is not None and r0.nul is not None and r0.slen == r0.nul
+                if r0.slen is not None:
+                    x = fresh("rs")
+                    h.imprecise.add(x)
+                    h.cons.append(Lin.sym(x))
+                    rh.slen = Lin.sym(x)
+                    sub[("rslen", rid)] = ("i", x, r0.slen)
+                    if same:
+                        rh.nul = Lin.sym(x)
+                if r0.nul is not None and not same:
+                    x = fresh("rn")
+                    h.imprecise.add(x)
+                    h.cons.append(Lin.sym(x))
                     rh.nul = Lin.sym(x)
-            if r0.nul is not None and not same:
-                x = fresh("rn")
-                h.imprecise.add(x)
-                h.cons.append(Lin.sym(x))
-                rh.nul = Lin.sym(x)
-                sub[("rnul", rid)] = ("i", x, r0.nul)
-            if r0.slen is None and r0.nul is None:
-                pass
-            if r0.slen is not None and r0.cap is not None:
-                pass
-        # candidate invariants over the havocked symbols
-        cands = []
-        for key, info in sub.items():
-            x = Lin.sym(info[1])
-            e0 = info[2]
-            cands.append(("ge0", x - e0))        # only grows
-            cands.append(("le0", e0 - x))        # only shrinks
-            if info[0] == "p":
-                r = pre.regions.get(info[3])
-                cands.append(("off>=0", x))
-                if r is not None:
+                    sub[("rnul", rid)] = ("i", x, r0.nul)
+                if r0.slen is None and r0.nul is None:
+                    pass
+                if r0.slen is not None and r0.cap is not None:
+                    pass
+            # candidate invariants over the havocked symbols
+            cands = []
+            for key, info in sub.items():
+                x = Lin.sym(info[1])
+                e0 = info[2]
+                cands.append(("ge0", x - e0))        # only grows
+                cands.append(("le0", e0 - x))        # only shrinks
+                if info[0] == "p":
+                    r = pre.regions.get(info[3])
+                    cands.append(("off>=0", x))
+                    if r is not None:
+                        if r.slen is not None:
+                            cands.append(("off<=slen", r.slen - x))
+                        if r.nul is not None:
+                            cands.append(("off<=nul", r.nul - x))
+                        if r.cap is not None:
+                            cands.append(("off<=cap", r.cap - x))
+                elif info[0] == "g":
+                    cands.append(("off>=0", x))
+                    for gk, nm in (("gcap", "cap"), ("gslen", "slen"), ("gnul", "nul")):
+                        gi = sub.get((gk, info[3]))
+                        if gi is not None:
+                            cands.append(("off<=" + nm, Lin.sym(gi[1]) - x))
+                else:
+                    cands.append(("nonneg", x)) if entails(pre.cons, e0) else None
+                    if isinstance(key, tuple) and key and key[0] in ("rslen", "rnul"):
+                        rg = pre.regions.get(key[1])
+                        if rg is not None and rg.cap is not None:
+                            cands.append(("len<cap", rg.cap - x - 1))
+            # integer variables used as indices into a buffer: bounded by its string length / terminator / capacity
+            for part in ("cond", "body", "inc"):
+                if n.get(part) is None:
+                    continue
+                for x in walk(n[part]):
+                    if x.get("k") != "index":
+                        continue
+                    ix = X.strip(x["ch"][1])
+                    off_c = 0
+                    if ix.get("k") == "bin" and ix.get("op") in ("+", "-") and X.const_val(ix["ch"][1]) is not None:
+                        ix = X.strip(ix["ch"][0])
+                    if ix.get("k") == "un" and ix.get("op") in ("++", "--"):
+                        ix = X.strip(ix["ch"][0])
+                    if ix.get("k") != "ref" or ix.get("d") not in sub or sub[ix["d"]][0] != "i":
+                        continue
+                    bx = X.strip(x["ch"][0])
+                    if bx.get("k") != "ref" or bx.get("d") in sub:
+                        continue
+                    bv = pre.env.get(bx["d"])
+                    if bv is None or bv[0] != "p":
+                        continue
+                    r = pre.regions.get(bv[1])
+                    if r is None:
+                        continue
+                    es = (x.get("tw") or 8) // 8 if not x.get("tp") else 8
+                    xv = Lin.sym(sub[ix["d"]][1]).scale(es) + bv[2]
+                    cands.append(("idx>=0", xv))
                     if r.slen is not None:
-                        cands.append(("off<=slen", r.slen - x))
+                        cands.append(("idx<=slen", r.slen - xv))
                     if r.nul is not None:
-                        cands.append(("off<=nul", r.nul - x))
+                        cands.append(("idx<=nul", r.nul - xv))
                     if r.cap is not None:
-                        cands.append(("off<=cap", r.cap - x))
-            else:
-                cands.append(("nonneg", x)) if entails(pre.cons, e0) else None
-                if isinstance(key, tuple) and key and key[0] in ("rslen", "rnul"):
-                    rg = pre.regions.get(key[1])
-                    if rg is not None and rg.cap is not None:
-                        cands.append(("len<cap", rg.cap - x - 1))
-        # integer variables used as indices into a buffer: bounded by its string length / terminator / capacity
-        for part in ("cond", "body", "inc"):
-            if n.get(part) is None:
-                continue
-            for x in walk(n[part]):
-                if x.get("k") != "index":
-                    continue
-                ix = X.strip(x["ch"][1])
-                off_c = 0
-                if ix.get("k") == "bin" and ix.get("op") in ("+", "-") and X.const_val(ix["ch"][1]) is not None:
-                    ix = X.strip(ix["ch"][0])
-                if ix.get("k") == "un" and ix.get("op") in ("++", "--"):
-                    ix = X.strip(ix["ch"][0])
-                if ix.get("k") != "ref" or ix.get("d") not in sub or sub[ix["d"]][0] != "i":
-                    continue
-                bx = X.strip(x["ch"][0])
-                if bx.get("k") != "ref" or bx.get("d") in sub:
-                    continue
-                bv = pre.env.get(bx["d"])
-                if bv is None or bv[0] != "p":
-                    continue
-                r = pre.regions.get(bv[1])
-                if r is None:
-                    continue
-                es = (x.get("tw") or 8) // 8 if not x.get("tp") else 8
-                xv = Lin.sym(sub[ix["d"]][1]).scale(es) + bv[2]
-                cands.append(("idx>=0", xv))
-                if r.slen is not None:
-                    cands.append(("idx<=slen", r.slen - xv))
-                if r.nul is not None:
-                    cands.append(("idx<=nul", r.nul - xv))
-                if r.cap is not None:
-                    cands.append(("idx<=cap", r.cap - xv))
-                    cands.append(("idx<cap", r.cap - xv - es))
-        # de-duplicate
-        seen_c = set()
-        cands = [c for c in cands if c is not None and not (c[1] in seen_c or seen_c.add(c[1]))]
-        # lock-step pairs
-        keys = list(sub.items())
-        for i in range(len(keys)):
-            for j in range(i + 1, len(keys)):
-                a, b = keys[i][1], keys[j][1]
-                d0 = a[2] - b[2]
-                xa, xb = Lin.sym(a[1]), Lin.sym(b[1])
-                cands.append(("lock+", (xa - xb) - d0))
-                cands.append(("lock-", d0 - (xa - xb)))
-                s0 = a[2] + b[2]
-                cands.append(("sum+", (xa + xb) - s0))
-                cands.append(("sum-", s0 - (xa + xb)))
-        # guard-derived candidates: a < b  ->  a <= b as invariant (evaluated over the havocked symbols)
-        if True:
-            rs0 = self.record
-            self.record = False
-            try:
-                conds = list(self.conjuncts(n["cond"])) if n.get("cond") is not None else []
-                # comparisons guarding statements inside the body bound what those statements can reach as well
-                for part in ("body", "inc"):
-                    if n.get(part) is not None:
-                        for x in walk(n[part]):
-                            if x.get("k") in ("if", "while", "for") and x.get("cond") is not None:
-                                conds.extend(self.conjuncts(x["cond"]))
-                            elif x.get("k") == "cond":
-                                conds.extend(self.conjuncts(x["ch"][0]))
-                for cj in conds[:12]:
-                    c0 = X.strip(cj)
-                    if c0.get("k") == "bin" and c0.get("op") in ("<", "<=", ">", ">="):
-                        hv = h.copy()
-                        la = self.ev(c0["ch"][0], hv)
-                        if len(la) != 1:
-                            continue
-                        lb = self.ev(c0["ch"][1], la[0][0])
-                        if len(lb) != 1:
-                            continue
-                        a, b = la[0][1], lb[0][1]
-                        if a[0] == "p" and b[0] == "p" and a[1] == b[1]:
-                            a, b = I(a[2]), I(b[2])
-                        if a[0] == "i" and b[0] == "i":
-                            d = (b[1] - a[1]) if c0["op"] in ("<", "<=") else (a[1] - b[1])
-                            cands.append(("guard", d))
-                            cands.append(("guard+1", d + 1))
-            except TooManyStates:
-                pass
-            finally:
-                self.record = rs0
-        cands = [c for c in cands if c is not None]
-
-        def value_of(sx, key, info):
-            if isinstance(key, tuple) and key and key[0] in ("rslen", "rnul"):
-                rg = sx.regions.get(key[1])
-                if rg is None:
-                    return None
-                return rg.slen if key[0] == "rslen" else rg.nul
-            v = sx.env.get(key) if not isinstance(key, tuple) else sx.heap.get(key)
-            if v is None:
-                return None
-            if info[0] == "i" and v[0] == "i":
-                return v[1]
-            if info[0] == "p" and v[0] == "p" and v[1] == info[3]:
-                return v[2]
-            return None
-
-        record_save = self.record
-        self.record = False
-        # candidates must hold on entry (x = e0); filtering first keeps the conjunction satisfiable, so the inductive
-        # step below is never vacuous
-        m0 = {info[1]: info[2] for info in sub.values()}
-        keep = [c for c in cands if entails(pre.cons, c[1].subst(m0))]
-        try:
-            for _round in range(12):
-                hs = h.copy()
-                hs.cons = hs.cons + [c[1] for c in keep]
-                if not feasible(hs.cons):
-                    keep = []
-                    break
-                ends = self.one_iteration(n, hs)
-                dropped = False
-                nk = []
-                for c in keep:
-                    ok = True
-                    for e in ends:
-                        m = {}
-                        bad = False
-                        for key, info in sub.items():
-                            nv = value_of(e, key, info)
-                            if nv is None:
-                                if info[1] in c[1].syms():
-                                    bad = True
+                        cands.append(("idx<=cap", r.cap - xv))
+                        cands.append(("idx<cap", r.cap - xv - es))
+            # de-duplicate
+            seen_c = set()
+            cands = [c for c in cands if c is not None and not (c[1] in seen_c or seen_c.add(c[1]))]
+            # lock-step pairs
+            keys = list(sub.items())
+            for i in range(len(keys)):
+                for j in range(i + 1, len(keys)):
+                    a, b = keys[i][1], keys[j][1]
+                    d0 = a[2] - b[2]
+                    xa, xb = Lin.sym(a[1]), Lin.sym(b[1])
+                    cands.append(("lock+", (xa - xb) - d0))
+                    cands.append(("lock-", d0 - (xa - xb)))
+                    s0 = a[2] + b[2]
+                    cands.append(("sum+", (xa + xb) - s0))
+                    cands.append(("sum-", s0 - (xa + xb)))
+            # guard-derived candidates: a < b  ->  a <= b as invariant (evaluated over the havocked symbols)
+            if True:
+                rs0 = self.record
+                self.record = False
+                try:
+                    conds = list(self.conjuncts(n["cond"])) if n.get("cond") is not None else []
+                    # comparisons guarding statements inside the body bound what those statements can reach as well
+                    for part in ("body", "inc"):
+                        if n.get(part) is not None:
+                            for x in walk(n[part]):
+                                if x.get("k") in ("if", "while", "for") and x.get("cond") is not None:
+                                    conds.extend(self.conjuncts(x["cond"]))
+                                elif x.get("k") == "cond":
+                                    conds.extend(self.conjuncts(x["ch"][0]))
+                    for cj in conds[:12]:
+                        c0 = X.strip(cj)
+                        if c0.get("k") == "bin" and c0.get("op") in ("<", "<=", ">", ">="):
+                            hv = h.copy()
+                            la = self.ev(c0["ch"][0], hv)
+                            if len(la) != 1:
                                 continue
-                            m[info[1]] = nv
-                        if bad or not entails(e.cons, c[1].subst(m)):
-                            ok = False
-                            if DEBUG_LOOPS and n.get("l") == int(os.environ.get("LA_DEBUG_LINE", "0")):
-                                print("   drop %s %r: bad=%s path=%s" % (c[0], c[1], bad, e.path[-6:]))
-                            break
-                    if ok:
-                        nk.append(c)
-                    else:
-                        dropped = True
-                keep = nk
-                if not dropped:
-                    break
-            else:
-                keep = []        # no fixpoint within the round budget: nothing is assumed
-        except TooManyStates:
-            if DEBUG_LOOPS:
-                print("LOOP line %s: TooManyStates during invariant inference (nstates=%d)" % (n.get("l"), self.nstates))
-            keep = []
-        finally:
-            self.record = record_save
+                            lb = self.ev(c0["ch"][1], la[0][0])
+                            if len(lb) != 1:
+                                continue
+                            a, b = la[0][1], lb[0][1]
+                            if a[0] == "p" and b[0] == "p" and a[1] == b[1]:
+                                a, b = I(a[2]), I(b[2])
+                            if a[0] == "i" and b[0] == "i":
+                                d = (b[1] - a[1]) if c0["op"] in ("<", "<=") else (a[1] - b[1])
+                                cands.append(("guard", d))
+                                cands.append(("guard+1", d + 1))
+                except TooManyStates:
+                    pass
+                finally:
+                    self.record = rs0
+            cands = [c for c in cands if c is not None]
+
+            def value_of(sx, key, info):
+                if isinstance(key, tuple) and key and key[0] in ("rslen", "rnul"):
+                    rg = sx.regions.get(key[1])
+                    if rg is None:
+                        return None
+                    return rg.slen if key[0] == "rslen" else rg.nul
+                if isinstance(key, tuple) and key and key[0] in ("gcap", "gslen", "gnul"):
+                    rg = group_region(sx, groups[key[1]])
+                    if rg is None:
+                        return None
+                    return {"gcap": rg.cap, "gslen": rg.slen, "gnul": rg.nul}[key[0]]
+                v = sx.env.get(key) if not isinstance(key, tuple) else sx.heap.get(key)
+                if v is None:
+                    return None
+                if info[0] == "g":
+                    rg = group_region(sx, groups[info[3]])
+                    return v[2] if (rg is not None and v[0] == "p") else None
+                if info[0] == "i" and v[0] == "i":
+                    return v[1]
+                if info[0] == "p" and v[0] == "p" and v[1] == info[3]:
+                    return v[2]
+                return None
+
+            record_save = self.record
+            self.record = False
+            # candidates must hold on entry (x = e0); filtering first keeps the conjunction satisfiable, so the inductive
+            # step below is never vacuous
+            m0 = {info[1]: info[2] for info in sub.values()}
+            keep = [c for c in cands if entails(pre.cons, c[1].subst(m0))]
+            try:
+                for _round in range(12):
+                    hs = h.copy()
+                    hs.cons = hs.cons + [c[1] for c in keep]
+                    if not feasible(hs.cons):
+                        keep = []
+                        shape_broken |= set(groups) | {("null", d_) for d_ in nullkeys}
+                        break
+                    ends = self.one_iteration(n, hs)
+                    for rid0, keys_ in groups.items():
+                        if any(group_region(e, keys_) is None for e in ends):
+                            shape_broken.add(rid0)
+                    for d_ in nullkeys:
+                        if any((e.env.get(d_) or ("u",))[0] != "n" for e in ends):
+                            shape_broken.add(("null", d_))
+                    if shape_broken:
+                        break
+                    dropped = False
+                    nk = []
+                    for c in keep:
+                        ok = True
+                        for e in ends:
+                            m = {}
+                            bad = False
+                            for key, info in sub.items():
+                                nv = value_of(e, key, info)
+                                if nv is None:
+                                    if info[1] in c[1].syms():
+                                        bad = True
+                                    continue
+                                m[info[1]] = nv
+                            if bad or not entails(e.cons, c[1].subst(m)):
+                                ok = False
+                                if DEBUG_LOOPS and n.get("l") == int(os.environ.get("LA_DEBUG_LINE", "0")):
+                                    print("   drop %s %r: bad=%s path=%s" % (c[0], c[1], bad, e.path[-6:]))
+                                break
+                        if ok:
+                            nk.append(c)
+                        else:
+                            dropped = True
+                    keep = nk
+                    if not dropped:
+                        break
+                else:
+                    keep = []        # no fixpoint within the round budget: nothing is assumed
+                    shape_broken |= set(groups) | {("null", d_) for d_ in nullkeys}
+            except TooManyStates:
+                if DEBUG_LOOPS:
+                    print("LOOP line %s: TooManyStates during invariant inference (nstates=%d)" % (n.get("l"), self.nstates))
+                keep = []
+                shape_broken |= set(groups) | {("null", d_) for d_ in nullkeys}
+            finally:
+                self.record = record_save
+            if not keep and (groups or nullkeys) and not shape_broken:
+                shape_broken |= set(groups) | {("null", d_) for d_ in nullkeys}     # the shape was only established under assumptions that did not survive
+            if shape_broken:
+                disabled_groups |= shape_broken
+                continue
+            break
         if DEBUG_LOOPS:
-            print("LOOP line %s depth-record=%s: kept %s of %d; ends=%s" % (n.get("l"), record_save, [c[0] + ":" + repr(c[1]) for c in keep][:12], len(cands), "?"))
+            print("LOOP line %s depth-record=%s: kept %s of %d; ends=%s" % (n.get("l"), record_save, [c[0] + ":" + repr(c[1]) for c in keep][:40], len(cands), "?"))
         # invariants must also hold on entry: by construction x=e0 satisfies ge0/le0/lock/sum; check the others
         m0 = {info[1]: info[2] for info in sub.values()}
         keep = [c for c in keep if entails(pre.cons, c[1].subst(m0))]
